@@ -140,6 +140,41 @@ def pred_dn_frames(inp):
     return ok, f'frames={f}: shape {many.shape}; equal to the single frame: {ok}'
 
 
+def _lut_table(bits, kind):
+    n = 2 ** bits
+    k = np.arange(n, dtype=np.int64)
+    if kind == 'identity':
+        return k.astype(np.uint16 if bits > 8 else np.uint8)
+    if kind == 'gamma':                      # monotone, float-valued response curve
+        return np.sqrt(k / max(1, n - 1)) * (n - 1)
+    return ((k * 7 + 3) % n).astype(np.uint16)   # 'scramble': a permutation of the codes, so every misplaced index shows
+
+
+def pred_dn_lut(inp):
+    """Detector(lut=...): the exposure is lut[DN of the same detector without lut], sample for sample, in the documented shape for one
+    and for several frames; the identity table changes nothing (so the DN stay in range)"""
+    det = _impl()[0]
+    cfg, img = inp['cfg'], np.asarray(inp['img'], dtype=float)
+    frames = inp.get('frames', 1)
+    lut = _lut_table(cfg['bits'], inp['lut'])
+    plain = _expose(cfg, img, frames)
+    d = det.Detector(cfg['dc'], cfg.get('read_noise', 3.0), cfg['bias'], cfg['fwc'], cfg['gain'], cfg['bits'], cfg['t'],
+                     prnu=None if cfg.get('prnu') is None else np.asarray(cfg['prnu'], dtype=float),
+                     dcnu=None if cfg.get('dcnu') is None else np.asarray(cfg['dcnu'], dtype=float), lut=lut.copy())
+    with noise_off():
+        out = d.expose(img.copy(), frames=frames)
+    want_shape = img.shape if frames == 1 else (frames,) + img.shape
+    if out.shape != want_shape:
+        return False, f'with a lut: shape {out.shape}, documented {want_shape}'
+    exp = lut[plain.astype(np.int64)]
+    if not np.array_equal(out, exp):
+        k = np.unravel_index(int(np.argmax(out != exp)), exp.shape)
+        return False, f'lut={inp["lut"]}: sample {k} reads {out[k]!r}, lut[DN={plain[k]}] = {exp[k]!r}'
+    if not np.array_equal(d.lut, lut):
+        return False, 'expose modified the detector\'s lut'
+    return True, 'ok'
+
+
 def pred_dn_real_rng(inp):
     """the REAL random generator (seeded): integers of the documented dtype and shape inside [0, 2^bits - 1]"""
     det = _impl()[0]
@@ -675,7 +710,7 @@ def _layout_cases(rng, m, n, quick):
     return out
 
 
-PREDS = {'dn_range': pred_dn_range, 'dn_monotone': pred_dn_monotone, 'dn_formula': pred_dn_formula, 'dn_frames': pred_dn_frames,
+PREDS = {'dn_range': pred_dn_range, 'dn_monotone': pred_dn_monotone, 'dn_formula': pred_dn_formula, 'dn_frames': pred_dn_frames, 'dn_lut': pred_dn_lut,
          'bin': pred_bin, 'tile': pred_tile, 'bin_tile_adjoint': pred_adjoint, 'expose_bin': pred_expose_bin, 'bayer_roundtrip': pred_bayer_roundtrip,
          'bayer_composite': pred_bayer_composite, 'malvar_native': pred_malvar_native, 'malvar_constant': pred_malvar_constant,
          'malvar_colour': pred_malvar_colour,
@@ -843,6 +878,9 @@ def correspondence(ctx):
                     _check(ctx, 'dn_monotone', inp, desc, True, f'bits{bits}/{kind}')
                 if frames != 1:
                     _check(ctx, 'dn_frames', inp, desc, True, f'bits{bits}')
+                if bits <= 14:
+                    lk = ('identity', 'scramble', 'gamma')[(bits + frames) % 3]
+                    _check(ctx, 'dn_lut', dict(inp, lut=lk), dict(desc, lut=lk), True, f'bits{bits}/{lk}/frames{frames}')
         # sorted ramp through saturation, unit gain and a fractional gain
         for gain in (1.0, 0.37):
             cap = 2.0 ** bits
@@ -1135,6 +1173,12 @@ def search(ctx, hints):
             ok, detail = _run_pred(name, inp)
             if not ok:
                 return found(name, inp, detail)
+        if bits <= 12:
+            for lk, fr in (('identity', 1), ('scramble', 1), ('scramble', 2)):
+                inp = {'cfg': cfg, 'img': ramp, 'lut': lk, 'frames': fr}
+                ok, detail = _run_pred('dn_lut', inp)
+                if not ok:
+                    return found('dn_lut', inp, detail)
         for maps in ('image', 'flat'):
             pr = [[1.0, 0.9, 1.1, 1.0, 1.0, 1.0, 1.0]]
             cfg2 = dict(cfg, prnu=pr if maps == 'image' else pr[0], dcnu=[[1.0] * 7])
@@ -1226,7 +1270,7 @@ def replay(inp):
     if name not in PREDS:
         print('no replay routine for item', name)
         return False
-    brief = {k: v for k, v in inp.items() if k in ('cfg', 'factor', 'cfa', 'frames', 'gains', 'saturation', 'shape', 'level', 'colour', 'dtype', 'seed', 'kind', 'fn', 'layouts', 'maps')}
+    brief = {k: v for k, v in inp.items() if k in ('cfg', 'factor', 'cfa', 'frames', 'gains', 'saturation', 'shape', 'level', 'colour', 'dtype', 'seed', 'kind', 'fn', 'layouts', 'maps', 'lut')}
     print(f'replaying {name}: {brief}')
     if name.startswith('dn_') and name != 'dn_real_rng':
         try:
